@@ -28,6 +28,10 @@ pub struct LibcnbBp {
     pub id: String,
     /// binary target names; the main one is the only one, or the one named like the package
     pub bins: Vec<String>,
+    /// other things a crate commonly has: bit 0 a build script, bit 1 an integration test,
+    /// bit 2 an example (Cargo reports all of them with crate type "bin")
+    #[serde(default)]
+    pub extras: u8,
 }
 
 impl LibcnbBp {
@@ -61,6 +65,28 @@ pub enum PkgDir {
     Default,
     Inside(String),
     Outside,
+    /// `--package-dir <relative path>`: relative to the directory the command is run in
+    Relative(String),
+}
+
+/// The directory `cargo libcnb package` is run in.
+pub fn invocation_dir(w: &Workspace, ws: &Path) -> PathBuf {
+    match &w.from {
+        From::Root => ws.to_path_buf(),
+        From::Libcnb(i) => ws.join(&w.libcnb[*i].dir),
+        From::Composite(i) => ws.join(&w.composites[*i].dir),
+    }
+}
+
+/// Where the packaged buildpacks are expected.
+pub fn package_dir(w: &Workspace, base: &Path) -> PathBuf {
+    let ws = base.join("ws");
+    match &w.pkg_dir {
+        PkgDir::Default => ws.join("packaged"),
+        PkgDir::Inside(p) => ws.join(p),
+        PkgDir::Outside => base.join("outside-pkgs"),
+        PkgDir::Relative(p) => normalise_lexically(&invocation_dir(w, &ws).join(p)),
+    }
 }
 
 #[derive(Clone, Debug, PartialEq, Serialize, Deserialize)]
@@ -135,6 +161,7 @@ pub fn generate(seed: u64, tier: &str, index: u64) -> Workspace {
             crate_name: crate_name.clone(),
             id: format!("{}/{}", *r.pick(&["acme", "org.example", "a-b"]), crate_name.replace('_', "-")),
             bins,
+            extras: if r.chance(1, 3) { 1 + r.below(7) as u8 } else { 0 },
         });
     }
     // every third workspace with several buildpacks: two of them have their own `helper`
@@ -222,8 +249,11 @@ pub fn generate(seed: u64, tier: &str, index: u64) -> Workspace {
         other_buildpack_dir,
         odd_foreign_descriptor: if r.chance(1, 2) { 1 + r.below(3) as u8 } else { 0 },
         release: r.chance(1, 4),
-        pkg_dir: match r.below(4) {
+        // (every eighth workspace, one that is packaged from a buildpack's directory, gets a
+        // relative --package-dir)
+        pkg_dir: match if index % 8 == 6 { let _ = r.below(4); 2 } else { r.below(4) } {
             0 | 1 => PkgDir::Default,
+            2 if index % 2 == 0 => PkgDir::Relative((*r.pick(&["out-dir/rel", "../out-dir/up"])).into()),
             2 => PkgDir::Inside("out-dir/pkgs".into()),
             _ => PkgDir::Outside,
         },
@@ -259,6 +289,17 @@ pub fn materialise(w: &Workspace, base: &Path) -> std::io::Result<Layout> {
             )?;
         }
         std::fs::write(d.join("Cargo.toml"), cargo)?;
+        if b.extras & 1 != 0 {
+            std::fs::write(d.join("build.rs"), "fn main() {\n    println!(\"cargo:rerun-if-changed=build.rs\");\n}\n")?;
+        }
+        if b.extras & 2 != 0 {
+            std::fs::create_dir_all(d.join("tests"))?;
+            std::fs::write(d.join("tests/integration.rs"), "#[test]\nfn it_works() {}\n")?;
+        }
+        if b.extras & 4 != 0 {
+            std::fs::create_dir_all(d.join("examples"))?;
+            std::fs::write(d.join("examples/demo.rs"), "fn main() {}\n")?;
+        }
         std::fs::write(
             d.join("buildpack.toml"),
             format!(
@@ -332,11 +373,7 @@ pub fn materialise(w: &Workspace, base: &Path) -> std::io::Result<Layout> {
             members.iter().map(|m| escape(m)).collect::<Vec<_>>().join(", ")
         ),
     )?;
-    let pkg = match &w.pkg_dir {
-        PkgDir::Default => ws.join("packaged"),
-        PkgDir::Inside(p) => ws.join(p),
-        PkgDir::Outside => base.join("outside-pkgs"),
-    };
+    let pkg = package_dir(w, base);
     // the documented precondition: the output directory is ignored when it lies in the workspace
     std::fs::write(ws.join(".ignore"), "packaged/\nout-dir/\ntarget/\n")?;
     let outside_canary = base.join("canary");
@@ -371,11 +408,7 @@ fn read_stats(path: &Path) -> (i64, bool, String) {
 }
 
 pub fn run_package(w: &Workspace, l: &Layout, base: &Path, shim_mode: Option<&str>) -> Result<RunOut, String> {
-    let cwd = match &w.from {
-        From::Root => l.ws.clone(),
-        From::Libcnb(i) => l.ws.join(&w.libcnb[*i].dir),
-        From::Composite(i) => l.ws.join(&w.composites[*i].dir),
-    };
+    let cwd = invocation_dir(w, &l.ws);
     let cargo = which("cargo").ok_or("cargo not found on PATH")?;
     let mut cmd = Command::new(cargo_libcnb());
     cmd.args(["libcnb", "package", "--target", TARGET, "--no-cross-compile-assistance"]);
@@ -386,6 +419,9 @@ pub fn run_package(w: &Workspace, l: &Layout, base: &Path, shim_mode: Option<&st
         PkgDir::Default => {}
         PkgDir::Inside(_) | PkgDir::Outside => {
             cmd.arg("--package-dir").arg(&l.pkg);
+        }
+        PkgDir::Relative(p) => {
+            cmd.arg("--package-dir").arg(p);
         }
     }
     cmd.current_dir(&cwd)
@@ -715,11 +751,7 @@ pub fn execute(w: &Workspace, history: &[HistoryStep], base: &Path) -> Result<Hi
     let l = if std::fs::read_to_string(&marker).ok().as_deref() == Some(wid.as_str()) {
         let l = Layout {
             ws: base.join("ws"),
-            pkg: match &w.pkg_dir {
-                PkgDir::Default => base.join("ws/packaged"),
-                PkgDir::Inside(p) => base.join("ws").join(p),
-                PkgDir::Outside => base.join("outside-pkgs"),
-            },
+            pkg: package_dir(w, base),
             outside_canary: base.join("canary"),
         };
         if l.pkg.exists() {
